@@ -1,19 +1,38 @@
 """C12 - invariance under sequence-number and clock wrap-around."""
 import kcp_common as K
+import vcheck as V
 
 META = {
     "enabled": True,
     "engine": "kcp",
     "technique": "Coq simulation proof: step commutes with shifting own/peer sequence numbers and own/peer clocks by any constants mod 2^32; same-history-at-many-offsets trace comparison on the real cores + model replay at each offset",
     "level_text": "Machine-checked simulation: for all four constants in [0, 2^32) (own/peer numbering, own/peer clock) related states, related calls (datagrams shifted field by field per command) yield related results and states, for every call of the core and - by induction - every history: same return values, same bytes read, same datagrams up to the shift; header leftovers of WASK/WINS are don't-care. Tied to kcp.go by running each generated history on the real cores at five offset triples (0; around 2^31; around 2^32; random; all-ones) and comparing the offset-normalised observable traces, each run also replayed in the extracted model.",
-    "level_note": K.TRUST + " FEC sequence-id wrap is covered by the fec engine (C07/C16). In the simulation both endpoints share one clock (co = cp); the theorem covers independent clocks.",
+    "level_note": K.TRUST + " FEC sequence-id wrap: theorems c07_wrap / c07_encoder_layout of the fec engine and its differential run with groups across the wrap are part of this check. In the simulation both endpoints share one clock (co = cp); the theorem covers independent clocks.",
 }
 OBLIGATIONS = ["c12_shift_step", "c12_shift_history", "c12_out_is_in", "c12_wf_init", "c12_wf_step", "c12_init", "c12_itimediff_shift"]
 RELEVANT = K.ALL
 
 
+FEC_OBLIGATIONS = ["c07_wrap", "c07_encoder_layout"]
+
+
 def run(ctx):
     K.core_check(ctx, "C12", "C12.v", OBLIGATIONS, RELEVANT,
                  "kcp.go vs coq/kcp/Kcp.v on the same histories at five sequence-number/clock offsets")
+    core_cov = dict(ctx.coverage)
+    # "FEC sequence ids likewise wrap without disturbing recovery": the fec engine's wrap theorems and its
+    # differential/monitor run, whose groups are placed at paws-2ss .. paws+ss and around 2^31, with skipped parity
+    ctx.prove("fec", "C07.v", FEC_OBLIGATIONS)
+    fec_cov = dict(ctx.coverage)
+    rep, _ = V.harness_report(ctx, "^TestVerifC07$", "C07.report.json", files=["fec_test.go"])
+    summ = V.driver_compare(ctx, "fec", ["fec_model"], "fec_driver", "C07.log",
+                            "fec.go encoder/decoder vs coq/fec/Fec.v on groups placed across the id wrap")
+    ctx.coverage = core_cov
+    ctx.coverage["obligations"] = core_cov.get("obligations", 0) + fec_cov.get("obligations", 0)
+    ctx.coverage["discharged"] = core_cov.get("discharged", 0) + len([t for t in FEC_OBLIGATIONS if fec_cov.get("theorems", {}).get(t) == "proved"])
+    ctx.coverage["checker_cmd"] = core_cov.get("checker_cmd", "") + " ; " + fec_cov.get("checker_cmd", "")
+    ctx.coverage["trusted_base"] = core_cov.get("trusted_base", []) + [t for t in fec_cov.get("trusted_base", []) if t.startswith("Print Assumptions")]
+    ctx.coverage.setdefault("theorems", {}).update({t: fec_cov.get("theorems", {}).get(t, "NOT CHECKED") for t in FEC_OBLIGATIONS})
+    V.merge_report(ctx, rep, summ)
     ctx.coverage["rule"] = ("each random lossy history is run at offsets (isnA, isnB, clock) = (0,0,0), (2^31-w, 2^31-w/2, 2^31-40w), (2^32-1-w, 5, 2^32-1-7w), random, (2^32-1,2^32-1,2^32-1); "
                             "the offset-normalised traces must be identical; non-trivial = one history (5 runs)")
